@@ -187,3 +187,10 @@ def capture_init(cls):
 
 def ctor_args(obj):
     return _CTOR.get(obj)
+
+
+def adopt(copy_, original):
+    """a copy of an object (copy.deepcopy, pickle round trip, copy.copy) has the public configuration the original was built with"""
+    if original in _CTOR:
+        _CTOR[copy_] = _CTOR[original]
+    return copy_
